@@ -354,7 +354,7 @@ def FORM_TWINS():
 
 
 WORKLOADS = [
-    Workload("deterministic", w_deterministic, 700, 40000),
+    Workload("deterministic", w_deterministic, 700, 40000, budget=400),
     Workload("invariance", w_invariance, 300, 20000),
     Workload("errors", w_errors, 6, 60),
     Workload("statistical", w_statistical, 28, 224, budget=300),
